@@ -52,7 +52,7 @@ CLAIMED = {
   tech=TECH+"simulated stdin schedule x child-outcome history over xargs -I, history oracle against a reference substituter"),
 }
 
-XC = " Both tiers end with a binary cross-check: the first 150 (quick) / 600 (thorough) comparable scenarios also go through the find/xargs executables built from the working tree with the hooks feature off (real children; xargs' standard input in turn a pipe, a regular file, a regular file read from an offset, a directory that cannot be read; find's list of starting points also on its real standard input in pieces; a bare command name reachable only through the empty PATH component; two fixed scenarios with 250 KB of output; for C08 a reader of find's output that leaves after the first invocation). A difference in exit status, child arguments, working directories or output bytes is a VIOLATION with a replay file; a difference in the mere presence of diagnostics is a harness error (exit 2)."
+XC = " Both tiers end with a binary cross-check: the first 150 (quick) / 600 (thorough) comparable scenarios also go through the find/xargs executables built from the working tree with the hooks feature off (real children; xargs' standard input in turn a pipe, a regular file, a regular file read from an offset, a directory that cannot be read; find's list of starting points also on its real standard input in pieces; a bare command name reachable only through the empty PATH component; two fixed scenarios with 250 KB of output; for C08 a reader of find's output that leaves after the first invocation; a third of the executable runs under an LD_PRELOAD shim that makes their own read(0)/write(1) return short counts and EINTR). A difference in exit status, child arguments, working directories or output bytes is a VIOLATION with a replay file; a difference in the mere presence of diagnostics is a harness error (exit 2)."
 ENVX = " The process environment is a scenario dimension: variables no statement mentions (POSIXLY_CORRECT, TZ with daylight saving, LC_ALL, ...) and, for find, a terminal as descriptor 1."
 EXT = {
  "C02": " Starting points also come through -files0-from (with a zero-length name, or without the final NUL); one run in 25 walks a chain 24-48 levels deep while the soft RLIMIT_NOFILE leaves 16-22 free descriptors; also depth options given twice, hundreds of unreadable entries or of starting points, a directory of more than 65535 entries." + ENVX + XC,
